@@ -245,7 +245,7 @@ def extract_reader_glue():
     """A loop in read_password that re-joins what codecs readline split at a
     code point other than the listed line ends:
         while password and password[-1] not in '<ends>':
-            more = self.file.readline()
+            more = self.file.readline()        (optionally inside try: ... except UnicodeError: break)
             if more == '' (or: not more): break
             password += more
     Returns the code points of <ends>, or None when read_password has no while
@@ -270,6 +270,15 @@ def extract_reader_glue():
     if not ok or w.orelse or len(w.body) != 3:
         raise ExtractError("read_password: unrecognised while loop")
     a, b, c = w.body
+    # the readline may be guarded: try: x = self.file.readline() / except UnicodeError: break
+    if isinstance(a, ast.Try):
+        h = a.handlers
+        guarded = (len(a.body) == 1 and not a.orelse and not a.finalbody and len(h) == 1
+                   and isinstance(h[0].type, ast.Name) and h[0].type.id in ("UnicodeError", "UnicodeDecodeError")
+                   and len(h[0].body) == 1 and isinstance(h[0].body[0], ast.Break))
+        if not guarded:
+            raise ExtractError("read_password: unrecognised try block in the re-joining loop")
+        a = a.body[0]
     ok = (isinstance(a, ast.Assign) and len(a.targets) == 1 and isinstance(a.targets[0], ast.Name)
           and isinstance(a.value, ast.Call) and isinstance(a.value.func, ast.Attribute) and a.value.func.attr == "readline"
           and not a.value.args and not a.value.keywords
